@@ -1,0 +1,15 @@
+//go:build verif
+
+package app
+
+// Machine-checked contracts for /verif (gowp). Comment-only file: it adds no code.
+// Frames of read-only accessors of the scope / IO context interfaces.
+
+//@ iface github.com/goatcms/goatcore/app.IOContext.Scope(self) (scp)
+//@   modifies $none
+//@ iface github.com/goatcms/goatcore/app.IOContext.IO(self) (io)
+//@   modifies $none
+//@ iface github.com/goatcms/goatcore/app.Scope.Err(self) (err)
+//@   modifies $none
+//@ iface github.com/goatcms/goatcore/app.Scope.Errors(self) (errs)
+//@   modifies $none
